@@ -227,4 +227,116 @@ theorem loadPeers_nodup (d : Durable) (m : Mem) (set : List Key) (hl : loadPeers
           · injection hl with hl; subst hl; exact dedupKeys_nodup _
           · cases hl
 
+/-! ### completeness of the greedy matching -/
+
+/-- `k` sits at a position the mask has not used yet -/
+def freeAt : List Key → List Bool → Key → Prop
+  | x :: ks, b :: bs, k => (b = false ∧ x = k) ∨ freeAt ks bs k
+  | _, _, _ => False
+
+theorem mem_picked_or_free (keys : List Key) (mask : List Bool) (k : Key) (hl : mask.length = keys.length)
+    (hk : k ∈ keys) : k ∈ picked keys mask ∨ freeAt keys mask k := by
+  induction keys generalizing mask with
+  | nil => cases hk
+  | cons x ks ih =>
+    cases mask with
+    | nil => simp at hl
+    | cons b bs =>
+      simp only [List.length_cons, Nat.add_right_cancel_iff] at hl
+      simp only [List.mem_cons] at hk
+      cases b
+      · rcases hk with rfl | hk
+        · exact Or.inr (Or.inl ⟨rfl, rfl⟩)
+        · rcases ih bs hl hk with h | h
+          · exact Or.inl (by simpa [picked] using h)
+          · exact Or.inr (Or.inr h)
+      · rcases hk with rfl | hk
+        · exact Or.inl (by simp [picked])
+        · rcases ih bs hl hk with h | h
+          · exact Or.inl (by simp [picked, h])
+          · exact Or.inr (Or.inr h)
+
+theorem matchSig_complete (p : Params) (h : Hash) (sig : Sig) (keys : List Key) (mask : List Bool) (k : Key)
+    (hf : freeAt keys mask k) (hv : p.verify k h sig = true) :
+    ∃ mask', matchSig p h sig keys mask = some mask' ∧ mask'.length = mask.length := by
+  induction keys generalizing mask with
+  | nil => cases mask <;> cases hf
+  | cons x ks ih =>
+    cases mask with
+    | nil => cases hf
+    | cons b bs =>
+      simp only [matchSig]
+      split
+      · exact ⟨true :: bs, rfl, rfl⟩
+      · rename_i hc
+        rcases hf with ⟨hb, hx⟩ | hf
+        · subst hb; subst hx
+          simp [hv] at hc
+        · obtain ⟨m', e, hl⟩ := ih bs hf
+          exact ⟨b :: m', by simp [e], by simp [hl]⟩
+
+/-- the loop succeeds when each of the first `n` signatures decodes and verifies under exactly one listed key,
+different signatures under different keys -/
+theorem multiLoop_complete (p : Params) (h : Hash) (keys : List Key) (n : Nat) (sigs : List Sig) (mask : List Bool)
+    (signer : Sig → Key) (used : List Key)
+    (hl : mask.length = keys.length) (hlen : n ≤ sigs.length)
+    (hpick : ∀ k ∈ picked keys mask, k ∈ used)
+    (hsig : ∀ sig ∈ sigs.take n, p.decode sig = true ∧ signer sig ∈ keys ∧ signer sig ∉ used ∧
+      p.verify (signer sig) h sig = true ∧ ∀ k ∈ keys, p.verify k h sig = true → k = signer sig)
+    (hinj : ((sigs.take n).map signer).Nodup) :
+    ∃ mask', multiLoop p h keys n sigs mask = .ok mask' := by
+  induction n generalizing sigs mask used with
+  | zero => exact ⟨mask, rfl⟩
+  | succ n ih =>
+    cases sigs with
+    | nil => simp at hlen
+    | cons sig rest =>
+      simp only [List.take_succ_cons, List.mem_cons, forall_eq_or_imp, List.map_cons, List.nodup_cons] at hsig hinj
+      obtain ⟨⟨hd, hmem, hnu, hv, huniq⟩, hrest⟩ := hsig
+      simp only [multiLoop, hd, Bool.not_true, Bool.false_eq_true, if_false]
+      have hfree : freeAt keys mask (signer sig) := by
+        rcases mem_picked_or_free keys mask _ hl hmem with h1 | h1
+        · exact absurd (hpick _ h1) hnu
+        · exact h1
+      obtain ⟨m1, e1, l1⟩ := matchSig_complete p h sig keys mask _ hfree hv
+      rw [e1]
+      obtain ⟨-, a2⟩ := matchSig_ok p h sig keys mask m1 e1
+      apply ih rest m1 (signer sig :: used) (by rw [l1, hl]) (by simpa using hlen)
+      · intro k hk
+        rcases a2 k hk with h3 | h3
+        · exact List.mem_cons_of_mem _ (hpick k h3)
+        · have := huniq k ((picked_sublist keys m1).subset hk) h3
+          rw [this]; exact List.mem_cons_self
+      · intro s hs
+        obtain ⟨b1, b2, b3, b4, b5⟩ := hrest s hs
+        refine ⟨b1, b2, ?_, b4, b5⟩
+        simp only [List.mem_cons, not_or]
+        refine ⟨?_, b3⟩
+        intro e
+        exact hinj.1 (e ▸ List.mem_map_of_mem hs)
+      · exact hinj.2
+
+
+
+/-- **completeness of the greedy multi-signature check** under the one-key-per-signature hypothesis: if each of the
+first `m` signatures decodes and verifies under exactly one listed key (`signer`), and these keys are pairwise
+different, the check accepts -/
+theorem verifyMulti_complete (p : Params) (h : Hash) (keys : List Key) (m : Int) (sigs : List Sig) (signer : Sig → Key)
+    (hlen : m ≤ (sigs.length : Int))
+    (hsig : ∀ sig ∈ sigs.take m.toNat, p.decode sig = true ∧ signer sig ∈ keys ∧
+      p.verify (signer sig) h sig = true ∧ ∀ k ∈ keys, p.verify k h sig = true → k = signer sig)
+    (hinj : ((sigs.take m.toNat).map signer).Nodup) :
+    ∃ mask, verifyMulti p h keys m sigs = .ok mask := by
+  unfold verifyMulti
+  rw [if_neg (by omega)]
+  apply multiLoop_complete p h keys m.toNat sigs _ signer [] (by simp) (by omega)
+  · intro k hk
+    rw [picked_allFalse] at hk
+    cases hk
+  · intro s hs
+    obtain ⟨a, b, c, d⟩ := hsig s hs
+    exact ⟨a, b, by simp, c, d⟩
+  · exact hinj
+
+
 end Poly.Model.Ledger
